@@ -142,9 +142,25 @@ class Lexer:
         t.value = Bool(token=t.value, lineno=t.lineno, filepath=self.current_filepath())
         return t
 
+    def parse_integer(self, t: LexToken, s: str, base: int = 10) -> int:
+        """Converts the digits s lexed to an integer.
+        Raises LexerError if the integer is too large to convert (and to format back
+        in the generated code), checks `sys.set_int_max_str_digits`."""
+        try:
+            value = int(s, base)
+            str(value)
+        except ValueError:
+            raise LexerError(
+                message="Integer too large",
+                filepath=self.current_filepath(),
+                token=t.value[:32],
+                lineno=t.lineno,
+            )
+        return value
+
     def t_UINT_TYPE(self, t: LexToken) -> LexToken:
         r"\buint[0-9]+\b"
-        cap: int = int(t.value[4:])  # uint{n}
+        cap: int = self.parse_integer(t, t.value[4:])  # uint{n}
         t.value = Uint(
             cap=cap, token=t.value, lineno=t.lineno, filepath=self.current_filepath()
         )
@@ -152,7 +168,7 @@ class Lexer:
 
     def t_INT_TYPE(self, t: LexToken) -> LexToken:
         r"\bint[0-9]+\b"
-        cap: int = int(t.value[3:])
+        cap: int = self.parse_integer(t, t.value[3:])
         t.value = Int(
             cap=cap, token=t.value, lineno=t.lineno, filepath=self.current_filepath()
         )
@@ -165,14 +181,14 @@ class Lexer:
 
     def t_HEX_LITERAL(self, t: LexToken) -> LexToken:
         r"0x[0-9a-fA-F]+"
-        t.value = int(t.value, 16)
+        t.value = self.parse_integer(t, t.value, 16)
         return t
 
     def t_INT_LITERAL(self, t: LexToken) -> LexToken:
         r"[0-9]+"
         # NOTE: Currently only non-negative integers are supported.
         # FIXME Negative integers?
-        t.value = int(t.value)
+        t.value = self.parse_integer(t, t.value)
         return t
 
     def t_BOOL_LITERAL(self, t: LexToken) -> LexToken:
